@@ -52,6 +52,10 @@ def build(rec, tmpdir=None):
     if bdy:
         fa['FTYPE'] = 2
     f = ioapi_base.from_arrays(attrs={'units': 'ppmV'}, fileattrs=fa, **arrays)
+    if rec.get('arrorig'):
+        # origins held as numpy arrays (mutable attribute objects)
+        f.XORIG = np.array([float(f.XORIG)])
+        f.YORIG = np.array(float(f.YORIG))
     if kind == 'disk':
         path = os.path.join(tmpdir, 'ioapi_%d.nc' % os.getpid())
         if os.path.exists(path):
